@@ -652,6 +652,51 @@ func rulesC19(e *Engine, r *Report) {
 		}
 		r.Ok("R19.12", "sts: appends onto configuration slice fields", "", 1+n, fmt.Sprintf("%d found", n))
 	}
+	// ---------------------------------------------------------------- R19.13
+	r.Rule("R19.13", "the default tag is the tag WITHOUT a pattern: setDefaults takes a tag for the default tag only under `Pattern == nil`, and adds one (method http) when no such tag exists - a source whose tags all carry a pattern still gets settings for the files that match none of them")
+	if fn := needFn(e, r, "R19.13", "main.(*clientApp).setDefaults"); fn != nil {
+		// the phi that carries the default tag: its non-nil leaves are tags, each taken under Pattern == nil
+		var dphi *ssa.Phi
+		for _, ed := range e.ifEdges(fn, "(phi(nil|p0.conf.Tags[§]§) == nil)") {
+			if t, ok := ed.B.Instrs[len(ed.B.Instrs)-1].(*ssa.If); ok {
+				if bo, ok := t.Cond.(*ssa.BinOp); ok {
+					if ph, ok := bo.X.(*ssa.Phi); ok {
+						dphi = ph
+					}
+				}
+			}
+		}
+		if dphi == nil {
+			r.Unresolved("R19.13", "the variable that holds the default tag in setDefaults")
+		} else {
+			okAll, n := true, 0
+			var facts []string
+			for i, ed := range dphi.Edges {
+				c := e.Canon(ed)
+				if c == "nil" || ed == ssa.Value(dphi) {
+					continue
+				}
+				if _, isPhi := ed.(*ssa.Phi); isPhi {
+					continue
+				}
+				n++
+				pred := dphi.Block().Preds[i]
+				conds := e.domConds(pred)
+				if t, isIf := pred.Instrs[len(pred.Instrs)-1].(*ssa.If); isIf && pred.Succs[0] != pred.Succs[1] {
+					conds = append(conds, e.CondStr(t.Cond, pred.Succs[0] == dphi.Block()))
+				}
+				facts = append(facts, c)
+				if !hasStr(conds, "("+c+".Pattern == nil)") {
+					okAll = false
+				}
+			}
+			r.Check(okAll && n >= 1, "R19.13", "main.(*clientApp).setDefaults: a tag becomes the default tag only when it has no pattern", e.Pos(fn.Pos()),
+				"a tag WITH a pattern is taken for the default tag: no pattern-less tag is added, files matching no pattern have no settings and are never queued", n, facts...)
+			add := e.findInstrs(fn, "store(p0.conf.Tags = builtin(append)(p0.conf.Tags, [&new(sts.TagConf)]))", false)
+			okAdd := len(add) == 1 && hasStr(e.domConds(add[0].Block()), "(phi(§) == nil)")
+			r.Check(okAdd, "R19.13", "main.(*clientApp).setDefaults: a pattern-less http tag is added when none exists", e.Pos(fn.Pos()), "the fallback default tag is not added under `no default tag found`", 1)
+		}
+	}
 }
 
 func tagOfField(f *types.Var) string { return strings.ToLower(f.Name()) }
